@@ -350,7 +350,7 @@ func c16Success(rc *RuleCtx) {
 
 func c16Iface(rc *RuleCtx) {
 	for _, f := range c16Funcs(rc) {
-		if f.Name() == "copyBufPool" {
+		if nm(f) == "copyBufPool" {
 			// the pool's Get() is asserted to *[]byte: not a file system object
 		}
 		bad := ""
@@ -410,7 +410,7 @@ func c16Digest(rc *RuleCtx) {
 				return
 			}
 			if c.Common().IsInvoke() && c.Common().Value == ssa.Value(hasher) {
-				switch fn.Name() {
+				switch nm(fn) {
 				case "Reset":
 					reset = c
 				case "Sum":
